@@ -181,6 +181,20 @@ theorem C01_mapStack_wt_struct (g : Grammar) (hg : grammarWF g = true)
   rwa [stripG_of_fieldsStripped g hs] at this
 
 open GEVerif.StackLemmas in
+/-- … and the same in the form the differential harness evaluates on the real library's output
+(`prop_wt_struct`): the program is well-typed for the RE-ANALYSED stripped declarations
+`analyse (stripSpec spec)`.  `sameReg spec` (decidable, `true` by computation on a concrete
+grammar) says that stripping did not change the registration — registration never looks at a
+refinement. -/
+theorem C01_mapStack_wt_stripSpec (spec : GrammarSpec) (hg : grammarWF (analyse spec) = true)
+    (hsame : sameReg spec = true) (order : List Ty)
+    (hreg : orderRegistered (analyse spec) order = true) (hann : annDefaultsOK order = true)
+    (limit fuel : Nat) (dna : List Int) (v : Val) (s' : SynSt)
+    (h : Stack.mapStack (analyse spec) order limit fuel dna = .ok v s') :
+    wt (analyse (stripSpec spec)) [] (.cls spec.start) v = true :=
+  mapStack_wt_stripSpec spec (GWF_of_grammarWF _ hg).alts hsame order hreg hann limit fuel dna v s' h
+
+open GEVerif.StackLemmas in
 /-- Why `annDefaultsOK`: for `Root(iv: Annotated[tuple[int, int], IntervalRange(1, 2, 10)])` the
 machine returns `Root(())`, whose field is not a pair: ill-typed even with the refinement erased
 (both for `stripG` and for the re-analysed stripped declarations).  Open finding
@@ -260,6 +274,16 @@ example : ∃ s', Stack.mapStack stackExGS stackExOrderS 100 50 stackExDnaS = .o
       decide +kernel)
   exact ⟨s', h, C01_mapStack_wt_struct stackExGS (by decide) (by decide) _ (by decide) (by decide)
     _ _ _ _ _ h⟩
+-- the registration is not changed by erasing refinements; the harness form of the theorem applies
+example : sameReg stackExSpec = true ∧ sameReg stackRefSpec = true ∧ sameReg stackTupSpec = true ∧
+    sameReg exSpecWT = true := by decide +kernel
+example : ∃ s', Stack.mapStack stackExG stackExOrder 100 50 stackExDna = .ok stackExVal s' ∧
+    wt stackExGS [] (.cls 0) stackExVal = true := by
+  obtain ⟨s', h⟩ := okVal_spec _ _
+    (show okVal (Stack.mapStack stackExG stackExOrder 100 50 stackExDna) stackExVal = true by
+      decide +kernel)
+  exact ⟨s', h, C01_mapStack_wt_stripSpec stackExSpec (by decide) (by decide +kernel) _ (by decide)
+    (by decide) _ _ _ _ _ h⟩
 -- the loop gives up with `GeneticEngineError` after `limit` failures; out of fuel; `KeyError` on
 -- an abstract class without productions in the symbol list
 example : errIs (Stack.mapStack stackExG stackExOrder 3 50 [0, 0]) .library = true := by decide +kernel
